@@ -87,6 +87,8 @@ func shardList(thorough bool) []string {
 	add("k1", EYAML, 1)
 	add("k1", ETOML, 1)
 	out = append(out, hkShards()...)
+	add("wn", "all", 4) // wide kinds x extreme numbers (wide.go)
+	add("du", "all", 1) // time.Duration / json.Unmarshaler fields (wide.go)
 	if thorough {
 		// parts-major: the completed prefix of a time-boxed run is "the first k blocks of primary
 		// specs (simplest kinds first) on every entry point"
@@ -327,6 +329,8 @@ func (x *runner) runShard(s shardSpec) {
 		x.runKeys(s)
 	case "hk":
 		x.runHK(s, -1)
+	case "wn", "du":
+		x.runWide(s)
 	case "h1":
 		for _, src := range sources {
 			for _, f := range primarySpecs(0, 1, th) {
@@ -519,6 +523,14 @@ func replay(cfg *vlib.Config, r *vlib.Report) {
 		if c.Toks[i].T == "list" && c.Toks[i].E == nil {
 			c.Toks[i].E = []Tok{}
 		}
+	}
+	if c.Wide != nil {
+		if replayWide(class, &c) {
+			fmt.Printf("VIOLATION property=C08 replay=%s\n", cfg.Replay)
+			os.Exit(1)
+		}
+		fmt.Println("replay: the case no longer fails")
+		os.Exit(0)
 	}
 	if c.Hist != nil {
 		if replayHist(cfg, class, &c) {
